@@ -89,6 +89,8 @@ def generate(seed, run, tier):
         for p in pos:
             if p == i:
                 cr = {'op': 'crash_restart', 'stale_example': rf.chance(0.3)}
+                if Stream(seed, ID, base_run, 'resume_order', i, len(out)).chance(0.3):
+                    cr['config_after_load'] = True
                 if rf.chance(0.25):
                     # the restarted script looks at the fresh wrapper before it loads the checkpoint
                     cr['prologue'] = [{'op': rf.choice(['summary', 'str', 'cost', 'export', 'nograd_eval_forward'])}
@@ -96,6 +98,7 @@ def generate(seed, run, tier):
                 out.append(cr)
         if i < len(ops):
             out.append(ops[i])
+    out = sched.add_bystanders(cfg, out, Stream(seed, ID, base_run, 'bystanders'))
     return {'cfg': cfg, 'ops': out, 'run_seed': mix(seed, ID, base_run, 'run')}
 
 
@@ -106,6 +109,7 @@ def sample_view(case):
     cfg['spec'] = {'in_shape': spec['in_shape'], 'n_out': spec['n_out'], 'feats': spec.get('feats'),
                    'mods': {k: v['t'] for k, v in spec['mods'].items()}}
     c['cfg'] = cfg
+    c['ops'] = [dict(o, cfg='<%s architecture>' % o['cfg']['method']) if o['op'] == 'bystander' else o for o in c['ops']]
     return c
 
 
@@ -128,7 +132,16 @@ def shrink_candidates(case):
         yield c
     # simplify ops
     for i, o in enumerate(case['ops']):
-        for key in ('abort', 'stale_example', 'mid', 'prologue', 'scope'):
+        if o['op'] == 'bystander':
+            for j in range(len(o['ops'])):
+                c = json.loads(json.dumps(case))
+                c['ops'][i]['ops'].pop(j)
+                yield c
+            for k in list(o['cfg'].get('ctor', {})):
+                c = json.loads(json.dumps(case))
+                c['ops'][i]['cfg']['ctor'].pop(k)
+                yield c
+        for key in ('abort', 'stale_example', 'mid', 'prologue', 'scope', 'config_after_load'):
             if o.get(key):
                 c = json.loads(json.dumps(case))
                 c['ops'][i].pop(key)
